@@ -58,6 +58,13 @@ PROP = {'title': 'Generic operations conserve values: rvalues moved once, lvalue
                            'harness/C05_record_tuple.cpp', 'harness/C05_array.cpp', 'harness/C05_options.cpp', 'harness/C05_parse.cpp',
                            'harness/C05_nested.cpp', 'harness/C05_assoc.cpp'],
                'libs': ['core', 'options'],
+               'flavour': 'asan'},
+              {'name': 'C05t',
+               'sources': ['harness/C05.cpp', 'harness/C05_grid_tree.cpp', 'harness/C05_optional.cpp', 'harness/C05_either_variant.cpp',
+                           'harness/C05_record_tuple.cpp', 'harness/C05_array.cpp', 'harness/C05_options.cpp', 'harness/C05_parse.cpp',
+                           'harness/C05_nested.cpp', 'harness/C05_assoc.cpp'],
+               'libs': ['core', 'options'],
+               'extra_flags': ['-DC05_THROWING_MOVE'],
                'flavour': 'asan'}],
  'compile_probes': [{'name': 'move_only:' + n, 'source': 'harness/C05_probe_mo.cpp', 'flags': ['-DC05_PROBE=%d' % k]} for k, n in _MO] +
                    [{'name': 'rejected:' + n, 'source': 'harness/C05_probe_lvalue.cpp', 'flags': ['-DC05_PROBE=%d' % k]} for k, n in _LV],
